@@ -148,3 +148,9 @@ Print Assumptions C17_code_merge_add_refuted.
 Theorem C17_code_merge_of_identical_types : forall a, gen_merge_max [a; a] = a.
 Proof. intros. rewrite link_merge_max. apply merge_max_same. Qed.
 Print Assumptions C17_code_merge_of_identical_types.
+
+(* merge Add is sized for two operands whatever their number (known finding C17-merge-add-sized-for-two-operands) -- about the regenerated code *)
+Theorem C17_code_merge_add_three_operands_refuted :
+  exists a k, code_ok a k /\ frac_bits (gen_merge_add [a; a; a]) = frac_bits a /\ ~ code_ok (gen_merge_add [a; a; a]) (k + k + k).
+Proof. destruct merge_add_three_operands_refuted as [a [k H]]. exists a, k. rewrite link_merge_add. exact H. Qed.
+Print Assumptions C17_code_merge_add_three_operands_refuted.
